@@ -283,6 +283,18 @@ def context_snapshot(ctx):
                                  p if isinstance(p, str) else type(p).__name__ + '@%d' % id(p)])
                 lst.append([getattr(spec, attr[kind], None), id(spec), type(spec).__name__, args])
             snap['specs'][cat + '/' + kind] = lst
+    # what lookups answer (the database keeps precedence twice: category list and chain maps)
+    getters = {'macros': ctx.get_macro_spec, 'environments': ctx.get_environment_spec,
+               'specials': ctx.get_specials_spec}
+    look = {}
+    for key, lst in snap['specs'].items():
+        kind = key.rsplit('/', 1)[1]
+        for entry in lst:
+            name = entry[0]
+            if isinstance(name, str) and (kind, name) not in look:
+                look[(kind, name)] = id(getters[kind](name))
+    snap['lookups'] = sorted([k[0], k[1], v] for k, v in look.items())
+    snap['specials_probe'] = [id(ctx.test_for_specials(p, i)) for p in ("~``''&", "a\n\n!v") for i in range(len(p))]
     for name in ('get_macro_spec', 'get_environment_spec', 'get_specials_spec'):
         u = getattr(ctx, name)('\0no-such-name\0')
         snap['unknown'].append(None if u is None else id(u))
@@ -666,3 +678,5 @@ TIERS = {
 }
 EXPECTED_PROBES = ['second-use-of-stateful-shared-parser', 'RecursionError-raised',
                    'interrupt-armed-but-parse-ended-first', 'reentrant-inner-parse-compared', 'tolerant-parse']
+
+STATES_MEASURE = ('distinct shared-state signatures observed between operations: sorted keys of the process-wide standard-argument parser cache plus the scalar attributes of every cached inner parser (coverage only, never an oracle)')
